@@ -246,12 +246,12 @@ theorem genPriv_keeps (c : Nat) (s : St) :
   cases h : s.loc <;> simp [SameCore, h]
 
 theorem custom_keeps (t : String) (s : St) :
-    Keeps s (if s.blk.sep then ((s.setBlk { s.blk with sep := false }).put ";").put t else s.put t) := by
+    Keeps s (if s.blk.sep then (s.put ";").put (t ++ "\n") else (s.setBlk { s.blk with sep := true }).put (t ++ "\n")) := by
   split
+  · exact ((sameCore_put s _).keeps).trans (sameCore_put _ _).keeps
   · apply SameCore.keeps
     unfold St.setBlk St.blk St.put
     cases h : s.loc <;> simp [SameCore, h]
-  · exact (sameCore_put s t).keeps
 
 /-! ### every operation keeps the invariant -/
 
